@@ -114,6 +114,7 @@ class ClientInfo:
             self.ctx_names = {c["name"]: [c["name"]] + c["aliases"] for c in spec["contexts"]}
             self.systems = [s["name"] for s in spec["systems"]]
             self.groups = [g["name"] for g in spec["groups"]] + ["root"]
+            self.default_group = (spec.get("defaults") or {}).get("group")
             self.by_dim = {}
             for n in self.units:
                 try:
@@ -134,6 +135,7 @@ class ClientInfo:
             self.ctx_names = {c[0]: [c[0]] for c in self.contexts}
             self.systems = ["SI", "mks", "cgs", "imperial", "US", "atomic", "Planck"]
             self.groups = ["root", "international", "imperial", "USCSLengthInternational", "Avoirdupois"]
+            self.default_group = "international"
             self.by_dim = None
             self.rule_pairs = []
             self.py_contexts = []
@@ -256,7 +258,11 @@ class ProgGen:
         if r < 0.71:
             return ["compat", self.unit_str(ci, False)]
         if r < 0.74:
-            return ["compat_g", self.unit_str(ci, False), rng.choice(info.groups + info.systems)]
+            g = rng.choice(info.groups + info.systems)
+            if rng.random() < 0.35:
+                # membership itself (a context that redefines a unit must not move it between groups)
+                return ["members", g] if g in info.groups else ["sysmembers", g]
+            return ["compat_g", self.unit_str(ci, False), g]
         if r < 0.77:
             a, b = self.same_dim_pair(ci)
             return ["compat_q", a, b if rng.random() < 0.7 else self.unit_str(ci)]
@@ -377,10 +383,19 @@ class ProgGen:
             self.pending = seq
             return first
         if r < 0.72 and info.contexts:
-            name, _, has_par = rng.choice(info.contexts)
+            name, red, has_par = rng.choice(info.contexts)
             kw = {}
             if has_par and rng.random() < 0.5:
                 kw = {"n1" if info.client["kind"] == "gen" else "n": rng.choice(["2", "3", "1.5"])}
+            if red and rng.random() < 0.5 and not getattr(self, "pending", None):
+                # a context that redefines units is entered and left: afterwards the groups and systems have the
+                # members they had (the redefinition went through the same adder as a definition)
+                g = info.default_group or rng.choice(info.groups)
+                seq = [{"c": ci, "k": "disable", "n": 1}, {"c": ci, "k": "ask", "q": ["members", g]}]
+                if info.systems:
+                    seq.append({"c": ci, "k": "ask", "q": ["sysmembers", rng.choice(info.systems)]})
+                seq.append({"c": ci, "k": "ask", "q": ["compat_g", self.unit_str(ci, False), rng.choice([g] + info.systems)]})
+                self.pending = seq
             return {"id": sid, "c": ci, "k": "enable", "ctx": rng.choice(info.ctx_names[name]), "base": name, "kw": kw}
         if r < 0.78:
             return {"id": sid, "c": ci, "k": "disable", "n": rng.choice([1, 1, None])}
@@ -880,7 +895,7 @@ class _Run:
     def shape_R6(self, ci, q, a, b):
         """Exactly the recorded shape of finding R6: a compatible-units listing of the live registry
         that lacks nothing but units added by define() after construction."""
-        if q[0] not in ("compat", "compat_g", "long_compat") or a[0] != "ok" or b[0] != "ok":
+        if q[0] not in ("compat", "compat_g", "long_compat", "members", "sysmembers") or a[0] != "ok" or b[0] != "ok":
             return False
         runtime = set()
         for line in self.states[ci].defs:
